@@ -481,27 +481,43 @@ Section Bytes.
       valid (v_key v) (sign_payload (alg_of (v_key v)) ut) (u_s ut) = true /\
       forall did_of, did_of (v_key v) = u_iss ut -> verify valid alg_of did_of ut (v_key v) = true.
 
+  (* any store that holds, pointwise, the view of the block table (store_of is one; a table
+     computed once is another: ServerBytes.U_of) *)
+  Section AnyStore.
+    Variable U : link -> option token.
+    Hypothesis HU : forall l, U l = option_map (view_block num keys valid alg_of) (B l).
+
+    Lemma sig_ok_to_bytes_U d t v : tok U d = Some t -> sig_ok t v -> sig_ok_bytes d t v.
+    Proof using HU.
+      unfold tok. rewrite HU. destruct (B (d_link d)) as [b|] eqn:Eb; [|discriminate].
+      cbn [option_map]. intros T [Ei [Ec Es]]. inversion T as [T']. clear T.
+      destruct (token_decode_typed b) as [ut|] eqn:D.
+      - rewrite (view_block_decoded num keys valid alg_of b ut D) in *. subst t.
+        destruct (view_signer_sound num keys valid alg_of ut (v_key v) Es) as [I [_ V]].
+        destruct (view_signer_message num keys valid alg_of ut (v_key v) Es) as [_ [_ M]].
+        cbn [view_token view_token_with t_iss t_sigcode] in Ei, Ec.
+        exists b, ut.
+        split; [exact Eb|]. split; [exact D|]. split; [reflexivity|].
+        split; [exact Ei|]. split; [exact Ec|]. split; [exact I|]. split; [exact M | exact V].
+      - rewrite (view_block_undecodable num keys valid alg_of b D) in *. subst t. discriminate Es.
+    Qed.
+
+    Theorem access_sound_bytes_U C :
+      (forall l p, resolve_proof C l = Some p -> d_link p = l) ->
+      forall n ds inv a,
+        fst (access U C n ds inv) = AOk a -> P_sg U C sig_ok_bytes n ds [inv] a.
+    Proof using HU.
+      intros Hres n ds inv a H. apply P_to_sg; [exact sig_ok_to_bytes_U|].
+      exact (access_sound U C Hres n ds inv a H).
+    Qed.
+  End AnyStore.
+
   Lemma sig_ok_to_bytes d t v : tok store_of d = Some t -> sig_ok t v -> sig_ok_bytes d t v.
-  Proof using.
-    unfold tok, store_of. destruct (B (d_link d)) as [b|] eqn:Eb; [|discriminate].
-    cbn [option_map]. intros T [Ei [Ec Es]]. inversion T as [T']. clear T.
-    destruct (token_decode_typed b) as [ut|] eqn:D.
-    - rewrite (view_block_decoded num keys valid alg_of b ut D) in *. subst t.
-      destruct (view_signer_sound num keys valid alg_of ut (v_key v) Es) as [I [_ V]].
-      destruct (view_signer_message num keys valid alg_of ut (v_key v) Es) as [_ [_ M]].
-      cbn [view_token view_token_with t_iss t_sigcode] in Ei, Ec.
-      exists b, ut.
-      split; [exact Eb|]. split; [exact D|]. split; [reflexivity|].
-      split; [exact Ei|]. split; [exact Ec|]. split; [exact I|]. split; [exact M | exact V].
-    - rewrite (view_block_undecodable num keys valid alg_of b D) in *. subst t. discriminate Es.
-  Qed.
+  Proof using. apply sig_ok_to_bytes_U. intros l. reflexivity. Qed.
 
   Theorem access_sound_bytes C :
     (forall l p, resolve_proof C l = Some p -> d_link p = l) ->
     forall n ds inv a,
       fst (access store_of C n ds inv) = AOk a -> P_sg store_of C sig_ok_bytes n ds [inv] a.
-  Proof using.
-    intros Hres n ds inv a H. apply P_to_sg; [exact sig_ok_to_bytes|].
-    exact (access_sound store_of C Hres n ds inv a H).
-  Qed.
+  Proof using. apply access_sound_bytes_U. intros l. reflexivity. Qed.
 End Bytes.
